@@ -170,7 +170,7 @@ package p2p
 //@   ensures [C05] chunk: result1 == nil ==> len(result0) >= 1 && len(result0) <= len(responses) && (forall k int :: 0 <= k && k < len(result0) ==> validated(result0[k]) && !result0[k].IsZero()) && (!s.from.IsZero() ==> verifiedRun(s.from, result0))
 
 //@ pure reqInRange(r) = r != nil && reqIsOrigin(r) && 1 <= r.Amount && r.Amount <= 140737488355328 && sessFrom <= reqOrigin(r) && reqOrigin(r) + r.Amount <= sessFrom + sessAmount
-//@ pure chunkOK(t, c) = len(c) >= 1 && sessFrom <= c[0].Height() && c[0].Height() + len(c) <= sessFrom + sessAmount && (forall a int @ at(c, a) :: off(c) <= a && a < off(c) + len(c) ==> inSession(at(c, a))) && verifiedRun(t, c)
+//@ pure chunkOK(t, c) = len(c) >= 1 && sessFrom <= c[0].Height() && c[0].Height() + len(c) <= sessFrom + sessAmount && (forall k int @ c[k] :: 0 <= k && k < len(c) ==> inSession(c[k])) && verifiedRun(t, c)
 
 //@ chaninv session.reqCh(r): reqInRange(r)
 //@ chaninv (*session).doRequest.headers(c): chunkOK(s.from, c)
@@ -196,13 +196,13 @@ package p2p
 //@   requires sessFrom == from && sessAmount == amount && headersPerPeer >= 1 && 1 <= amount && amount <= 140737488355328 && from + amount <= MaxUint64 && !s.from.IsZero()
 //@   modifies session.reqCh, $now
 //@   ensures [C05] enough: result1 == nil ==> len(result0) >= amount
-//@   ensures [C05] in-range: result1 == nil ==> forall a int @ at(result0, a) :: off(result0) <= a && a < off(result0) + len(result0) ==> inSession(at(result0, a))
-//@   ensures [C05] ascending: result1 == nil ==> forall a int, b int @ at(result0, a), at(result0, b) :: off(result0) <= a && a < b && b < off(result0) + len(result0) ==> at(result0, a).Height() <= at(result0, b).Height()
+//@   ensures [C05] in-range: result1 == nil ==> forall k int @ result0[k] :: 0 <= k && k < len(result0) ==> inSession(result0[k])
+//@   ensures [C05] ascending: result1 == nil ==> forall i int, j int @ result0[i], result0[j] :: 0 <= i && i < j && j < len(result0) ==> result0[i].Height() <= result0[j].Height()
 //@ loop 0:
 //@   invariant bounds: -1 <= rangeindex && rangeindex + 1 <= len(requests)
 //@   invariant frame: unchanged("elems(H)") && unchanged("elems(int)")
 //@ loop 1:
-//@   invariant collected: forall a int @ at(headers, a) :: off(headers) <= a && a < off(headers) + len(headers) ==> inSession(at(headers, a))
+//@   invariant collected: forall k int @ headers[k] :: 0 <= k && k < len(headers) ==> inSession(headers[k])
 //@   invariant nonempty-request: amount >= 1
 //@   invariant frame: unchanged("elems(H)") && unchanged("elems(int)") && fresh(arr(headers))
 
@@ -219,8 +219,8 @@ package p2p
 //@   modifies session.reqCh, session.cancel, session.from, elems(int), $now
 //@   ensures [C05] degenerate: to <= from.Height() + 1 ==> result1 != nil
 //@   ensures [C05] nonempty: result1 == nil ==> len(result0) >= 1 && len(result0) >= to - from.Height() - 1
-//@   ensures [C05] in-range: result1 == nil ==> forall a int @ at(result0, a) :: off(result0) <= a && a < off(result0) + len(result0) ==> from.Height() < at(result0, a).Height() && at(result0, a).Height() < to && validated(at(result0, a)) && !at(result0, a).IsZero()
-//@   ensures [C05] ascending: result1 == nil ==> forall a int, b int @ at(result0, a), at(result0, b) :: off(result0) <= a && a < b && b < off(result0) + len(result0) ==> at(result0, a).Height() <= at(result0, b).Height()
+//@   ensures [C05] in-range: result1 == nil ==> forall k int @ result0[k] :: 0 <= k && k < len(result0) ==> from.Height() < result0[k].Height() && result0[k].Height() < to && validated(result0[k]) && !result0[k].IsZero()
+//@   ensures [C05] ascending: result1 == nil ==> forall i int, j int @ result0[i], result0[j] :: 0 <= i && i < j && j < len(result0) ==> result0[i].Height() <= result0[j].Height()
 //@   ensures [C05] error-no-headers: result1 != nil ==> len(result0) == 0
 
 // ---- Exchange.Head (C09)
